@@ -26,11 +26,16 @@ CmdInfo(c) ==
   CASE c = "A" -> [api |-> "Cmd", cmd |-> "GetDeviceID", netfn |-> 6, num |-> 1, body |-> <<>>]
     [] c = "B" -> [api |-> "Cmd", cmd |-> "GetSystemGUID", netfn |-> 6, num |-> 55, body |-> <<>>]
     [] c = "R" -> [api |-> "Raw", cmd |-> "Raw", netfn |-> 10, num |-> 16, body |-> <<7>>]
+    \* G, H: two Group Extension (2Ch) commands with the DCMI body code DCh (02h Get Power Reading, 07h Get DCMI Sensor Info numbers)
+    [] c = "G" -> [api |-> "Raw", cmd |-> "Raw", netfn |-> 44, num |-> 2, body |-> <<1, 0, 0>>, group |-> 220]
+    [] c = "H" -> [api |-> "Raw", cmd |-> "Raw", netfn |-> 44, num |-> 7, body |-> <<1, 64, 0, 1>>, group |-> 220]
 CcByte(cc) == CASE cc = "ok" -> 0 [] cc = "err" -> 193 [] cc = "busy" -> 192 [] cc = "tmo" -> 195
 MsgFor(c, ccb, body) == B(MsgRspBytes(129, CmdInfo(c).netfn + 1, 0, 1, 0, CmdInfo(c).num, ccb, body))
 BodyBytes(c, mk)  == CASE c = "A" -> <<mk, 129, 2, 21, 2, 191, 162, 2, 0, 52, 18>>
                        [] c = "B" -> <<mk>> \o [i \in 1..15 |-> 200 + i]
                        [] c = "R" -> <<mk, 1, 2, 3>>
+                       [] c = "G" -> <<220, mk, 9, 9>>
+                       [] c = "H" -> <<220, mk, 0>>
 Marker(call, n) == call * 16 + n
 Iv(k) == [i \in 1..16 |-> (i * 13 + k * 29) % 256]
 Seq4(call, n) == LE32s(call * 8 + n)
@@ -43,7 +48,8 @@ BadPadBytes(n) == LET p == IF ConfPadLen(n) = 0 THEN 16 ELSE ConfPadLen(n) IN Re
 \* one datagram term for abstract datagram d
 Dgram(d) ==
   LET c == d.forCmd   mk == Marker(d.call, d.n)   sq == Seq4(d.call, d.n)   iv == Iv(d.call * 8 + d.n)
-      body == IF d.cc # "ok" THEN <<>> ELSE IF d.bodyOK THEN BodyBytes(c, mk) ELSE <<mk, 129, 2>>
+      grp == IF "group" \in DOMAIN CmdInfo(c) THEN <<CmdInfo(c).group>> ELSE <<>>
+      body == IF d.cc # "ok" THEN grp ELSE IF d.bodyOK THEN BodyBytes(c, mk) ELSE <<mk, 129, 2>>
       msg == MsgFor(c, CcByte(d.cc), body)
   IN IF ~InSession
      THEN IF d.kind = "garbage"
@@ -78,7 +84,7 @@ OutcomeAt(e) ==
        [] o.kind = "xerr"     -> << <<>>, <<>> >>
        [] o.kind = "late"     -> << <<>>, <<[A(c, o.cc) EXCEPT !.kind = "late"]>> >>
        [] o.kind = "dup"      -> << <<A(c, o.cc)>>, <<[A(c, o.cc) EXCEPT !.kind = "dup"]>> >>
-       [] o.kind = "stale"    -> << <<[A(o.other, "ok") EXCEPT !.kind = "stale"]>>, <<>> >>
+       [] o.kind = "stale"    -> << <<[A(o.other, o.cc) EXCEPT !.kind = "stale"]>>, <<>> >>
        [] o.kind = "badsig"   -> << <<[A(c, "ok") EXCEPT !.sig = FALSE, !.kind = "badsig"]>>, <<>> >>
        [] o.kind = "unauth"   -> << <<[A(c, "ok") EXCEPT !.sig = FALSE, !.flag = FALSE, !.sid = "null", !.kind = "unauth"]>>, <<>> >>
        [] o.kind = "wrongsid" -> << <<[A(c, "ok") EXCEPT !.sid = "other", !.kind = "wrongsid"]>>, <<>> >>
@@ -95,7 +101,9 @@ CallStep(e) ==
   LET ci == CmdInfo(e.cmd) IN
   IF ci.api = "Raw"
   THEN [k |-> "call", api |-> "Raw", label |-> e.cmd, target |-> IF InSession THEN "sess" ELSE "conn",
-        args |-> [netfn |-> ci.netfn, cmd |-> ci.num, lun |-> 0, body |-> ci.body]]
+        args |-> IF "group" \in DOMAIN ci
+                 THEN [netfn |-> ci.netfn, cmd |-> ci.num, lun |-> 0, body |-> ci.body, bodyCode |-> ci.group]
+                 ELSE [netfn |-> ci.netfn, cmd |-> ci.num, lun |-> 0, body |-> ci.body]]
   ELSE [k |-> "call", api |-> "Cmd", cmd |-> ci.cmd, label |-> e.cmd, target |-> IF InSession THEN "sess" ELSE "conn"]
 Step(e) == IF e.k = "call" THEN CallStep(e) ELSE React(e)
 
@@ -107,7 +115,8 @@ Header == [header |-> TRUE, family |-> "console",
            session |-> SessionRecipes(S),
            prefixes |-> [hs |-> HandshakeSteps(S)],
            suite |-> [authNum |-> AuthNum, integNum |-> IntegNum, integLen |-> S.integLen, bmcSid |-> S.bmcSid],
-           cmds |-> [c \in Cmds |-> [netfn |-> CmdInfo(c).netfn, num |-> CmdInfo(c).num, body |-> CmdInfo(c).body]]]
+           cmds |-> [c \in Cmds |-> [netfn |-> CmdInfo(c).netfn, num |-> CmdInfo(c).num, body |-> CmdInfo(c).body,
+                                      wire |-> (IF "group" \in DOMAIN CmdInfo(c) THEN <<CmdInfo(c).group>> ELSE <<>>) \o CmdInfo(c).body]]]
 ASSUME PrintT(<<"HEADER", ToJson(Header)>>)
 
 Emit == (pc = "idle" /\ calls = MaxCalls) => PrintT(<<"SCRIPT", ToJson(Script(hist))>>)
